@@ -122,17 +122,20 @@ Ltac sfu :=
   cbn [conn_no sess clos gproc gdeq gack gcl ph pp dp ap lp dying will cw cpp cps tdeq tpub tsub ackq] in *.
 
 (* destruct the scrutinees of the matches in hypothesis H, one after the other *)
+Ltac bm_destruct H x :=
+  let y := fresh "y" in let E := fresh "E" in
+  remember x as y eqn:E in H; symmetry in E; destruct y.
 Ltac bm1 H :=
   first
   [ match type of H with
     | context [match ?x with _ => _ end] =>
         lazymatch x with
         | context [match _ with _ => _ end] => fail
-        | _ => destruct x eqn:?
+        | _ => bm_destruct H x
         end
     end
   | match type of H with
-    | context [match ?x with _ => _ end] => destruct x eqn:?
+    | context [match ?x with _ => _ end] => bm_destruct H x
     end ].
 Ltac bm H := repeat (cbv beta iota zeta in H; bm1 H; try discriminate H).
 
@@ -158,6 +161,8 @@ Lemma roles_only_set s p d a c : roles_only s (set_roles s p d a c).
 Proof. unfold roles_only. reflexivity. Qed.
 
 (* what a closure step can change: session, closure table, dying, ack queue *)
+Ltac shape_tac := repeat eexists; (etransitivity; [apply bc_eta|]); sf; reflexivity.
+
 Lemma step_clo_shape s e s' : step_clo s e = Some s' ->
   exists se cl dy q,
     s' = BC (conn_no s) se cl (gproc s) (gdeq s) (gack s) (gcl s) (ph s) (pp s) (dp s) (ap s) (lp s)
@@ -165,7 +170,7 @@ Lemma step_clo_shape s e s' : step_clo s e = Some s' ->
 Proof.
   intros H. unfold step_clo, guard in H. destruct e; try discriminate H; bm H; inv_some H;
     unfold clo_enqueue; repeat match goal with |- context [if ?b then _ else _] => destruct b end;
-    dbc s; sfu; eauto 10.
+    shape_tac.
 Qed.
 
 Definition clo_event (e : event) : bool :=
@@ -188,7 +193,8 @@ Lemma step_deq_shape s e s' : step_deq s e = Some s' ->
             dy (will s) (cw s) (cpp s) (cps s) t1 t2 t3 (ackq s).
 Proof.
   intros H. unfold step_deq, take_deq in H. destruct (dp s) eqn:Edp; destruct e; try discriminate H; bm H; inv_some H;
-    dbc s; sfu; eauto 10.
+    repeat match goal with |- context [match ?b with _ => _ end] => destruct b end;
+    shape_tac.
 Qed.
 
 (* acker: ap, dying, tokens, ack queue *)
@@ -198,8 +204,8 @@ Lemma step_ack_shape s e s' : step_ack s e = Some s' ->
             dy (will s) (cw s) (cpp s) (cps s) t1 t2 t3 q.
 Proof.
   intros H. unfold step_ack in H. destruct (ap s) eqn:Eap; destruct e; try discriminate H; bm H; inv_some H;
-    unfold ack_token_back; try match goal with |- context [match ?p with Connect _ => _ | _ => _ end] => destruct p end;
-    dbc s; sfu; eauto 10.
+    unfold ack_token_back; repeat match goal with |- context [match ?p with _ => _ end] => destruct p end;
+    shape_tac.
 Qed.
 
 (* cleanup: lp, and (freeze) pp dp ap *)
@@ -214,8 +220,8 @@ Lemma step_cleanup_shape s e s' : step_cleanup s e = Some s' ->
 Proof.
   intros H. unfold step_cleanup, guard in H. destruct (lp s) eqn:Elp; destruct e; try discriminate H; bm H; inv_some H;
     repeat match goal with Hx : _ && _ = true |- _ => apply andb_true_iff in Hx as [Hx ?] end;
-    dbc s; sfu; subst; do 4 eexists; (split; [reflexivity|]);
-    first [ left; repeat split; discriminate | right; repeat split; assumption ].
+    do 4 eexists; (split; [etransitivity; [apply bc_eta|sf; reflexivity]|]); sf;
+    first [ left; repeat split; congruence | right; repeat split; assumption ].
 Qed.
 
 (* ------------------------------------------------------- who made the step *)
@@ -369,12 +375,53 @@ Proof.
   - destruct e; try discriminate Es; cbn [step] in H.
     + destruct (conn_open s) eqn:Eo; [discriminate H|]. injection H as <-.
       apply SC_new; [reflexivity|apply conn_open_false, Eo|reflexivity].
+    + apply SC_clo, H.
+    + apply SC_clo, H.
     + unfold guard in H. destruct (conn_open s) eqn:Eo; [|discriminate H]. injection H as <-.
       apply SC_closereq; auto.
-    + apply SC_clo, H.
-    + apply SC_clo, H.
     + apply SC_closed; [reflexivity|exact H].
     + unfold guard in H. destruct (quiescent s) eqn:Eo; [|discriminate H]. injection H as <-.
       apply SC_quiet; auto.
   - rewrite (step_is_gen _ _ Es) in H. apply step_gen_cases, H.
+Qed.
+
+(* ------------------------------------------------ sweeping over all steps *)
+
+(* An invariant that does not mention the role fields is preserved by [step] if
+   each coroutine's step function preserves it. *)
+Section Sweep.
+  Variable I : bc -> Prop.
+  Hypothesis I_roles : forall s p d a c, I s -> I (set_roles s p d a c).
+  Hypothesis I_new : forall s, I s -> lp s = LEnd -> I (new_conn s).
+  Hypothesis I_dying : forall s, I s -> I (set_dying s).
+  Hypothesis I_clo : forall s e s', I s -> step_clo s e = Some s' -> I s'.
+  Hypothesis I_proc : forall s e s', I s -> step_proc s e = Some s' -> I s'.
+  Hypothesis I_deq : forall s e s', I s -> step_deq s e = Some s' -> I s'.
+  Hypothesis I_ack : forall s e s', I s -> step_ack s e = Some s' -> I s'.
+  Hypothesis I_cl : forall s e s', I s -> step_cleanup s e = Some s' -> I s'.
+
+  Lemma sweep s e s' : I s -> step s e = Some s' -> I s'.
+  Proof.
+    intros Hi H. destruct (step_cases _ _ _ H) as
+      [-> Hl -> | -> Ho -> | -> Hq -> | Hc | -> Hc | g s1 Ho Hg Hc Hin Hv Hp | g s1 Ho Hg Hc Hin R1 Hv Hp
+      | g s1 Ho Hg Hc Hin R1 R2 Hv Hp | g s1 Ho Hg Hc Hin R1 R2 R3 Hv Hp | g -> Ho Hc Hin Hf ->].
+    - apply I_new; assumption.
+    - exact Hi.
+    - exact Hi.
+    - eapply I_clo; eassumption.
+    - eapply I_cl; eassumption.
+    - eapply I_proc; [|exact Hp]. destruct Hv as [[-> _]|(_ & _ & -> & _)]; [exact Hi|apply I_roles, Hi].
+    - eapply I_deq; [|exact Hp]. destruct Hv as [[-> _]|(_ & _ & ->)]; [exact Hi|apply I_roles, Hi].
+    - eapply I_ack; [|exact Hp]. destruct Hv as [[-> _]|(_ & _ & ->)]; [exact Hi|apply I_roles, Hi].
+    - eapply I_cl; [|exact Hp]. destruct Hv as [[-> _]|(_ & _ & ->)]; [exact Hi|apply I_roles, Hi].
+    - apply I_dying, Hi.
+  Qed.
+End Sweep.
+
+(* fields no processor step changes *)
+Lemma step_proc_frame s e s' : step_proc s e = Some s' ->
+  conn_no s' = conn_no s /\ gproc s' = gproc s /\ gdeq s' = gdeq s /\ gack s' = gack s /\ gcl s' = gcl s /\ lp s' = lp s.
+Proof.
+  intros H. unfold step_proc, proc_dispatch, die_p, guard, clo_reg, take_sub, take_pub, take_deq_if_any, take_deq in H.
+  destruct (pp s) eqn:Epp; destruct e; try discriminate H; bm H; inv_some H; sf; repeat split; reflexivity.
 Qed.
